@@ -242,6 +242,8 @@ pub struct FileScan {
     pub sites: Vec<Site>,
     /// for every function (qualified name): its token text, for the `sorted` justification
     pub bodies: BTreeMap<String, String>,
+    /// for every function: its signature (`fn name ( … ) -> …`) as token text
+    pub sigs: BTreeMap<String, String>,
     /// the whole file as token text (test items included)
     pub text: String,
 }
@@ -834,6 +836,8 @@ pub fn scan_file(rel: &str, src: &str, g: &Globals) -> FileScan {
                         let q = cur_fn(&stack).unwrap_or_default();
                         let end = close_of(j);
                         let body: Vec<&str> = t[j..end.min(t.len())].iter().map(|x| x.s.as_str()).collect();
+                        let sig: Vec<&str> = t[i..j.min(t.len())].iter().map(|x| x.s.as_str()).collect();
+                        fs.sigs.insert(q.clone(), sig.join(" "));
                         fs.bodies.insert(q, body.join(" "));
                     }
                     i = j + 1;
@@ -992,23 +996,30 @@ pub fn scan_file(rel: &str, src: &str, g: &Globals) -> FileScan {
                     a -= 1;
                     steps += 1;
                 }
-                let mut z = i;
+                // forward from the START of the statement (an occurrence nested in a call's parentheses must not end
+                // the statement at that call's `)`), ending at the first `;` / closing bracket at depth 0 past the site
+                let mut z = a;
                 let mut d = 0i64;
                 steps = 0;
-                while z < t.len() && steps < 200 {
+                while z < t.len() && steps < 280 {
                     let x = at(z);
                     if x == "(" || x == "[" || x == "{" {
                         d += 1;
                     } else if x == ")" || x == "]" || x == "}" {
                         d -= 1;
-                        if d < 0 {
+                        if d < 0 && z >= i {
                             break;
                         }
-                    } else if x == ";" && d <= 0 {
+                        if d < 0 {
+                            d = 0;
+                        }
+                    } else if x == ";" && d <= 0 && z >= i {
                         break;
                     }
                     z += 1;
-                    steps += 1;
+                    if z > i {
+                        steps += 1;
+                    }
                 }
                 let stmt: Vec<&str> = t[a..z.min(t.len())].iter().map(|x| x.s.as_str()).collect();
                 fs.sites.push(Site { file: rel.to_string(), func, kind, what, line: t[i].line, stmt: stmt.join(" ") });
@@ -1307,6 +1318,7 @@ fn entry_points(tree: &Tree, out: &mut Out) -> serde_json::Value {
     let mut n_driven = 0usize;
     let mut n_listed = 0usize;
     let mut ro_undriven: Vec<String> = Vec::new();
+    let mut unrelated_free: Vec<String> = Vec::new();
     for (file, fs) in &tree.files {
         let tier = tier_of(file);
         // (a) harness-like public types anywhere outside src/bin and tests
@@ -1371,8 +1383,20 @@ fn entry_points(tree: &Tree, out: &mut Out) -> serde_json::Value {
             if !relevant {
                 continue;
             }
-            n_fns += 1;
             let key = if f.owner == "-" { f.name.clone() } else { format!("{}::{}", f.owner, f.name) };
+            if f.owner == "-" && !(f.name.starts_with("run_") || f.name.starts_with("summarize_") || f.name.starts_with("check_")) {
+                // a free function of a simulation file is an ENTRY POINT only if it can run or judge a simulation: its
+                // signature or body mentions a harness-like type, a DST configuration / result, or a seeded generator.
+                // An unrelated helper (`pub fn millis_per_second() -> u64`) is not; if its body holds a nondeterminism
+                // site the site scan names it.
+                let text = format!("{} {}", fs.sigs.get(&key).cloned().unwrap_or_default(), fs.bodies.get(&key).cloned().unwrap_or_default());
+                let about_simulation = text.split(' ').any(|w| is_ident(w) && (harness_like(w) || w.ends_with("DSTConfig") || w.ends_with("DSTResult") || w == "Rng" || w == "TimestampedOperation" || w == "VirtualTime" || w == "FaultConfig"));
+                if !about_simulation && !fs.sites.iter().any(|x| x.func == key) {
+                    unrelated_free.push(format!("{} ({}:{})", key, file, f.line));
+                    continue;
+                }
+            }
+            n_fns += 1;
             let driven = if f.owner == "-" {
                 // called, or handed to a macro / passed as a function value
                 word_in(&drv, &format!("{}(", f.name)) || word_in(&drv, &format!("{},", f.name)) || word_in(&drv, &format!("{})", f.name))
@@ -1427,7 +1451,8 @@ fn entry_points(tree: &Tree, out: &mut Out) -> serde_json::Value {
     }
     json!({"harness_table(type → level M modelled / E explored / K kernel op-by-op / N not driven)": rows, "entry_points_and_config_fields": n_fns, "driven": n_driven,
            "listed_not_driven": n_listed, "stale_table_rows": stale,
-           "readonly_accessors_not_driven(a new `&self` fn without a nondeterminism site: an observation nobody compares yet, not a violation)": ro_undriven})
+           "readonly_accessors_not_driven(a new `&self` fn without a nondeterminism site: an observation nobody compares yet, not a violation)": ro_undriven,
+           "free_functions_not_about_a_simulation(no harness-like type, DST configuration / result or generator in signature or body)": unrelated_free})
 }
 
 // ------------------------------------------------------------------------------------------
@@ -1651,6 +1676,7 @@ fn sites(tree: &Tree, out: &mut Out) -> serde_json::Value {
     let present: BTreeSet<&str> = by_key.keys().filter_map(|k| allowed.get_key_value(k.as_str()).map(|(k, _)| *k)).collect();
     let mut taken: BTreeSet<&str> = BTreeSet::new();
     let mut rekeyed: Vec<String> = Vec::new();
+    let mut auto_justified: Vec<String> = Vec::new();
     for (key, ss) in &by_key {
         let first = ss[0];
         // a function that was RENAMED, or whose body moved into a helper / another file, keeps its entry: an
@@ -1665,12 +1691,34 @@ fn sites(tree: &Tree, out: &mut Out) -> serde_json::Value {
                     continue;
                 }
                 let p: Vec<&str> = k.split('|').collect();
-                if p.len() == 4 && p[2] == first.kind && p[3] == first.what && (p[0] == first.file || last(p[1]) == last(&first.func)) {
+                // same kind and same RECEIVER (`our_keys.iter` rewritten as `for … in our_keys` is the same iteration)
+                let recv = |w: &str| w.split('.').next().unwrap_or("").to_string();
+                if p.len() == 4 && p[2] == first.kind && (p[3] == first.what || (first.kind == "hash-iteration" && recv(p[3]) == recv(&first.what) && p[0] == first.file && last(p[1]) == last(&first.func)))
+                    && (p[0] == first.file || last(p[1]) == last(&first.func)) {
                     taken.insert(*k);
                     rekeyed.push(format!("{} -> {}|{}", k, first.file, first.func));
                     resolved = Some((*k, (*n, *j, *note)));
                     break;
                 }
+            }
+        }
+        // an UNLISTED hash iteration that is order-insensitive on its face needs no entry (a merge moved into a
+        // new helper, a loop rewritten as a chain): either its statement folds per key into a map (`.entry(…)`),
+        // or its function RETURNS a hash / BTree container — and neither the statement nor the function body
+        // exposes an order (no push / next / take / find / break / format / Vec / generator draw …)
+        if resolved.is_none() && first.kind == "hash-iteration" {
+            const EXPOSES: &[&str] = &["push", "push_str", "push_back", "push_front", "next", "take", "skip", "find", "find_map", "position", "first", "last", "nth", "break",
+                "format", "write", "writeln", "print", "println", "gen_range", "gen_bool", "next_u64", "rng", "shuffle", "zip", "enumerate", "rev", "fold", "reduce", "send", "try_send",
+                "Vec", "VecDeque", "String", "join", "concat", "min_by_key", "max_by_key", "min_by", "max_by"];
+            let body = tree.files.get(&first.file).and_then(|f| f.bodies.get(&first.func)).cloned().unwrap_or_default();
+            let sig = tree.files.get(&first.file).and_then(|f| f.sigs.get(&first.func)).cloned().unwrap_or_default();
+            let exposes = |text: &str| text.split(' ').any(|w| EXPOSES.contains(&w));
+            let ret = sig.rsplit_once("- >").map(|x| x.1.to_string()).unwrap_or_default();
+            let returns_unordered = ret.split(' ').any(|w| HASH_TYPES.contains(&w) || w == "BTreeMap" || w == "BTreeSet" || tree.globals.hash_types.contains(w));
+            let per_key_fold = ss.iter().all(|x| x.stmt.contains(". entry (") && !exposes(&x.stmt));
+            if !body.is_empty() && !exposes(&body) && (per_key_fold || returns_unordered) {
+                auto_justified.push(format!("{} ({}:{}: {})", key, first.file, first.line, if per_key_fold { "per-key fold into a map" } else { "feeds only the unordered container the function returns" }));
+                continue;
             }
         }
         match resolved {
@@ -1783,7 +1831,8 @@ fn sites(tree: &Tree, out: &mut Out) -> serde_json::Value {
     }
     json!({"files_scanned": n_files, "functions_scanned": n_funcs, "sites_by_kind": per_kind, "sites_by_justification": per_just,
            "allow_list_entries": ALLOWED.len(), "stale_allow_list_entries(the code they excused is gone)": stale,
-           "entries_followed_to_a_renamed_or_moved_function": rekeyed})
+           "entries_followed_to_a_renamed_or_moved_function": rekeyed,
+           "unlisted_hash_iterations_order_insensitive_on_their_face": auto_justified})
 }
 
 pub fn report(out: &mut Out) {
